@@ -313,6 +313,18 @@ def run(ctx):
     loops = [n for n in H.walk(hm["body"]) if H.kind(n) == "For" and any(H.kind(x) == "Call" and x.get("def") == "blots::parse_json_inputs" for x in H.walk(n["body"]))]
     ctx.inst("C19.R3", "main#stdin-first", len(stdin_calls) == 1 and len(loops) == 1 and stdin_calls[0]["sp"][3] < loops[0]["sp"][3],
              "stdin parsed at %s, --input loop at %s" % ([H.loc(x) for x in stdin_calls], [H.loc(x) for x in loops]), H.loc(hm["body"]))
+    # piped stdin that holds only layout (an `echo` with nothing, a trailing newline from a here-doc) is "no inputs", not a malformed document
+    if stdin_calls:
+        ifs_ = [n for n in H.walk(hm["body"]) if H.kind(n) == "If" and any(x is stdin_calls[0] for x in H.walk(n["then"]))
+                and any(H.kind(x) == "MethodCall" and x["name"] == "is_empty" for x in H.walk(n["cond"]))]
+        if not ifs_:
+            ctx.inst("C19.R3", "main#blank-stdin-is-no-input", None, "no emptiness test found around the stdin parse", H.loc(stdin_calls[0]))
+        else:
+            g_ = ifs_[-1]
+            ie_ = [x for x in H.walk(g_["cond"]) if H.kind(x) == "MethodCall" and x["name"] == "is_empty"]
+            trimmed = all(any(H.kind(y) == "MethodCall" and y["name"] in ("trim", "trim_start", "trim_end", "trim_ascii") for y in H.walk(x["recv"])) or
+                          any(H.kind(y) == "MethodCall" and y["name"] in ("all",) for y in H.walk(x["recv"])) for x in ie_)
+            ctx.inst("C19.R3", "main#blank-stdin-is-no-input", True if trimmed else False, "the stdin document is handed to the JSON parser unless it is empty %s" % ("after trimming" if trimmed else "as raw bytes: a lone newline on stdin is a JSON error and the run fails"), H.loc(g_))
     if loops:
         lp = loops[0]
         it = lp["iter"]
@@ -369,6 +381,20 @@ def run(ctx):
     # every member of an input object is bound (shared with C06.R4): a skipped member would not override an earlier one
     from rules import c06
     c06.member_insert_rule(ctx, cli, "C19.R3")
+
+    # ---------------- R9 the number under an input key is the number in the document
+    ctx.rule("C19.R9", "the value bound to an input key is the value in the JSON document: serde_json is resolved with float_roundtrip (correctly rounded numbers), so `output v = #v` re-exports what was fed in and `blots a | blots b` is lossless", floor=1)
+    feats_ = c06.serde_json_features(ctx.metadata)
+    if not feats_:
+        ctx.inst("C19.R9", "serde_json@features", None, "serde_json not found in the resolved dependency graph", None)
+    for ver_, fs_ in sorted((feats_ or {}).items()):
+        ctx.inst("C19.R9", "serde_json@features", "float_roundtrip" in fs_, "resolved features of serde_json %s: %s" % (ver_, sorted(fs_)), "blots/Cargo.toml")
+    # ---------------- R10 only `output` declares an output
+    ctx.rule("C19.R10", "the keyword of an output declaration is the whole word `output` followed by mandatory layout: a name that merely starts with it (`outputs = 1`, `output_dir = ..`) is an ordinary assignment and adds nothing to the outputs object", floor=1)
+    from rules import c10 as c10_
+    from lib.peg import Grammar as G10_
+    ok10, d10 = c10_.keyword_guarded(G10_(ctx.grammar), "output_declaration")
+    ctx.inst("C19.R10", "keyword-rule=output_declaration", ok10, d10, "blots-core/src/grammar.pest")
 
     # ---------------- R6 `#name` admits every name `inputs.name` admits
     ctx.rule("C19.R6", "the grammar reads `#name` for every name that `.name` reads: input_reference is `#` followed by the character sequence of identifier (digits and underscores included), without the reserved-word exclusion", floor=1)
